@@ -236,15 +236,16 @@ class SymReal(object):
             return self.sg
         k = self.e.get_id()
         c = CUR.sign_cache
-        if k in c:
-            self.sg = c[k]
+        hit = c.get(k)
+        if hit is not None and hit[0].eq(self.e):   # the entry keeps its AST alive (ids are recycled)
+            self.sg = hit[1]
             return self.sg
         sg = None
         if CUR.valid(self.e > 0):
             sg = "p"
         elif CUR.valid(self.e >= 0):
             sg = "z" if CUR.valid(self.e == 0) else "nn"
-        c[k] = sg
+        c[k] = (self.e, sg)
         self.sg = sg
         return sg
 
